@@ -999,7 +999,28 @@ pub fn check_case(ctx: &mut Ctx, case: &Case, cfg: &Cfg, props: &[String], want_
                 bump(&mut res, "C11");
                 let (mb2, mc2) = max_line_len(y2);
                 if mb2.max(mc2) <= *w1 as usize && y1 != y2 {
-                    res.viols.push(Viol { prop: "C11", clause: "fits_narrower_same_result", detail: format!("W1={w1} W2={w2}: result for W2 has max line {mb2} but differs: {}", first_diff(y2, y1)) });
+                    // F15 at the level of C11: at one of the widths the re-flow moved a literal whose interior had already been
+                    // re-indented for the place the first wrapping gave it
+                    let mut site = "";
+                    for w in [*w1, *w2] {
+                        let mut c2 = cfg.clone();
+                        c2.wrap_column = w;
+                        let rr = ctx.run(text, &c2, &[], true);
+                        if !moved_string_site(&rr).is_empty() {
+                            site = moved_string_site(&rr);
+                        } else if !step_args(&rr.events, "reindent_string").is_empty() {
+                            // ... or a literal that was already in place for the first wrapping and is not any more after the re-flow
+                            if let (Ok(o), Ok(ti)) = (&rr.out, lex(text)) {
+                                if let Ok(to) = lex(o) {
+                                    let verb: Vec<bool> = ti.iter().filter(|t| t.kind == "TextLiteral(MultiLine)").map(|_| false).collect();
+                                    if c12(text, &ti, o, &to, &c2, &verb).0.iter().any(|v| v.clause == "indentation") {
+                                        site = " [site: the re-flow moved a multi-line string after its interior had been re-indented]";
+                                    }
+                                }
+                            }
+                        }
+                    }
+                    res.viols.push(Viol { prop: "C11", clause: "fits_narrower_same_result", detail: format!("W1={w1} W2={w2}: result for W2 has max line {mb2} but differs: {}{site}", first_diff(y2, y1)) });
                 }
                 if line_count(y2) > line_count(y1) {
                     // F5: some CODE of the narrower result does not fit (a line that is too long even without its trailing
